@@ -295,13 +295,23 @@ func stripChainReturnValue(top, parent *valueProperty, this_ propertySet, key in
 		return nil, top
 	}
 	if this.key == key {
-		// caller ensures that this != top/parent
-		parent.chain = this.chain
-		this.chain = nil
-		return this.val, top
+		// Links may be shared with by-value copies of the owner (cells are
+		// copied around), so never edit a link in place: rebuild the links
+		// above the removed one and share the tail below it.
+		return this.val, copyChainWithout(top, this)
 	}
 	if this.chain == nil || this.chain == noProperty {
 		return nil, top
 	}
 	return stripChainReturnValue(top, this, this.chain, key)
+}
+
+// copyChainWithout returns a chain equal to the one starting at from, with the
+// link drop removed; links above drop are fresh copies, links below are shared.
+func copyChainWithout(from, drop *valueProperty) propertySet {
+	if from == drop {
+		return from.chain
+	}
+	next, _ := from.chain.(*valueProperty)
+	return &valueProperty{copyChainWithout(next, drop), from.key, from.val}
 }
